@@ -1051,6 +1051,134 @@ impl Control {
         }
     }
 
+    /// One connection of the REAL control socket with a live subscription: a request arrives in two
+    /// pieces and an event of the subscribed topic is published between them. The request must be
+    /// answered exactly as the dispatcher answers the whole line (same id, result, effect on the
+    /// configuration); the pushed event is a separate line. Runs for one case in fifty (chosen from the
+    /// session text) and in every `session` op.
+    fn socket_split_session(&mut self, force: bool, mon: &mut Mon) {
+        use tokio::io::{AsyncBufReadExt, AsyncWriteExt, BufReader};
+        let (stream_bytes, _) = self.session_stream();
+        let mut h: u64 = 0xcbf29ce484222325;
+        for b in &stream_bytes {
+            h = (h ^ *b as u64).wrapping_mul(0x100000001b3);
+        }
+        if !force && (self.session.is_empty() || h % 50 != 1) {
+            return;
+        }
+        mon.count("socket-split-session");
+        let ms = 1000 + (h >> 8) % 70_000;
+        let request = match (h >> 4) % 3 {
+            0 => format!(r#"{{"jsonrpc":"2.0","id":42,"method":"set_conn_timeout","params":{{"ms":{ms}}}}}"#),
+            1 => format!(r#"{{"jsonrpc":"2.0","id":"q-{ms}","method":"set_quality","params":{{"enabled":{}}}}}"#, ms % 2 == 0),
+            _ => r#"{"jsonrpc":"2.0","id":7,"method":"set_mode","params":{"mode":"classic"}}"#.to_string(),
+        };
+        let cut = 1 + ((h >> 16) as usize) % (request.len() - 1);
+        let (first, second) = (request[..cut].to_string(), format!("{}\n", &request[cut..]));
+        // expected answer and effect: the dispatcher on the whole line
+        let cfg_x = DynamicConfig::new();
+        let expected = self
+            .rt
+            .block_on(dispatch_async(&cfg_x, Some(&SharedStats::new()), Some(&CriticalWindow::new()), None, &request))
+            .map(|r| r.to_json());
+        static SPLIT_SEQ: std::sync::atomic::AtomicU64 = std::sync::atomic::AtomicU64::new(0);
+        let path = format!(
+            "/tmp/verif-c18s-{}-{}.sock",
+            std::process::id(),
+            SPLIT_SEQ.fetch_add(1, std::sync::atomic::Ordering::Relaxed)
+        );
+        let cfg_y = DynamicConfig::new();
+        let hub = SubscriptionHub::new();
+        let (cfg_srv, path_srv, hub_srv) = (cfg_y.clone(), path.clone(), hub.clone());
+        let got: Result<Vec<String>, String> = self.rt.block_on(async move {
+            let srv = srtla_send::control_socket::spawn(path_srv.clone(), cfg_srv, SharedStats::new(), CriticalWindow::new(), hub_srv);
+            let mut stream = None;
+            for _ in 0..10000 {
+                match tokio::net::UnixStream::connect(&path_srv).await {
+                    Ok(s) => {
+                        stream = Some(s);
+                        break;
+                    }
+                    Err(_) => tokio::time::sleep(std::time::Duration::from_millis(1)).await,
+                }
+            }
+            let Some(stream) = stream else {
+                srv.abort();
+                return Err("could not connect to the control socket".to_string());
+            };
+            let (rd, mut wr) = stream.into_split();
+            let mut rd = BufReader::new(rd);
+            let mut lines: Vec<String> = Vec::new();
+            let res: Result<(), String> = async {
+                let sub = "{\"jsonrpc\":\"2.0\",\"id\":1,\"method\":\"subscribe\",\"params\":{\"topic\":\"stats\"}}\n";
+                wr.write_all(sub.as_bytes()).await.map_err(|e| e.to_string())?;
+                let mut l = String::new();
+                tokio::time::timeout(std::time::Duration::from_secs(20), rd.read_line(&mut l))
+                    .await
+                    .map_err(|_| "timeout waiting for the subscribe answer".to_string())?
+                    .map_err(|e| e.to_string())?;
+                // first piece of the request, time for the server to consume it, an event, the rest
+                wr.write_all(first.as_bytes()).await.map_err(|e| e.to_string())?;
+                wr.flush().await.map_err(|e| e.to_string())?;
+                tokio::time::sleep(std::time::Duration::from_millis(40)).await;
+                hub.publish("stats", serde_json::json!({"tick": 1})).await;
+                tokio::time::sleep(std::time::Duration::from_millis(40)).await;
+                wr.write_all(second.as_bytes()).await.map_err(|e| e.to_string())?;
+                let _ = wr.shutdown().await;
+                loop {
+                    let mut l = String::new();
+                    let n = tokio::time::timeout(std::time::Duration::from_secs(20), rd.read_line(&mut l))
+                        .await
+                        .map_err(|_| "timeout waiting for the connection to close".to_string())?
+                        .map_err(|e| e.to_string())?;
+                    if n == 0 {
+                        break;
+                    }
+                    lines.push(l.trim_end().to_string());
+                }
+                Ok(())
+            }
+            .await;
+            srv.abort();
+            let _ = srv.await;
+            res.map(|_| lines)
+        });
+        let _ = std::fs::remove_file(&path);
+        match got {
+            // environment trouble is not the property's business
+            Err(e) => {
+                mon.count("socket-split-session:io");
+                let _ = e;
+            }
+            Ok(lines) => {
+                let answers: Vec<&String> = lines.iter().filter(|l| !l.contains("\"method\":\"stats.update\"")).collect();
+                if lines.len() != answers.len() {
+                    mon.count("socket-split-session:push-seen");
+                }
+                let want: Vec<String> = expected.into_iter().collect();
+                let got: Vec<String> = answers.into_iter().cloned().collect();
+                if got != want {
+                    mon.fail(
+                        "C18",
+                        "socket-split-request",
+                        format!(
+                            "a request sent to the control socket in two pieces ({cut} + {} bytes) with a subscription event published in between was answered {got:?}; the dispatcher answers the whole line {want:?}",
+                            request.len() - cut
+                        ),
+                    );
+                }
+                let (sx, sy) = (Shadow::of(&cfg_x), Shadow::of(&cfg_y));
+                if sx != sy {
+                    mon.fail(
+                        "C18",
+                        "socket-split-request:config",
+                        format!("after the split request the socket's config is {} but the dispatcher's is {}", sy.show(), sx.show()),
+                    );
+                }
+            }
+        }
+    }
+
     /// Real threads: concurrent setters (API and dispatcher) and snapshot / get_status readers on
     /// the S config.  Only range / echo facts are checked (the interleaving is not replayable).
     fn exec_race(&mut self, ms: &[u64], mon: &mut Mon) -> String {
@@ -1733,6 +1861,7 @@ impl Component for Control {
 
     fn end_case(&mut self, mon: &mut Mon) {
         self.socket_session(false, mon);
+        self.socket_split_session(false, mon);
         self.stdin_session(false, mon);
     }
 
@@ -1805,6 +1934,7 @@ impl Component for Control {
                 format!("cw={}/{}", self.cw.windows_received(), self.cw.malformed_datagrams())
             }
             ["session"] => {
+                self.socket_split_session(true, mon);
                 // replay the lines so far through both real listeners now (corpus witnesses)
                 self.socket_session(true, mon);
                 self.stdin_session(true, mon);
